@@ -524,3 +524,63 @@ def drop_blocks_of(body, local):
                 if p and p["l"] in alias and not p.get("pr"):
                     out.add(i)
     return out
+
+
+ITER_VIEWS = ("<impl [T]>::iter", "slice::<impl [T]>::iter", "IntoIterator::into_iter", "Deref::deref", "Vec<T, A>::as_slice", "Vec<T, A>::iter", "AsRef::as_ref", "Borrow::borrow")
+
+
+def iteration_context(cs):
+    """Decides whether call site `cs` runs exactly once for every element of one iterated source, for the two ways the
+    repository (and ordinary refactorings of it) write that: a `for` loop, or `<iter>.for_each(closure)`.
+    Returns (source_sym, None) on success — source_sym with the view calls (iter/into_iter/deref/as_slice) removed, so
+    adaptors such as take/skip/filter/rev stay visible — or (None, reason)."""
+    body = cs.body
+    fn = cs.fn
+    sy = Sym(fn)
+    if in_cycle(body, cs.bb):
+        nxt = [c for c in body.calls() if c.is_("Iterator::next") and not c.foreign()]
+        gate = None
+        for n in nxt:
+            if n.t.get("target") is None:
+                continue
+            edges = dict(body.switch_edges(n.t["target"])) if body.term(n.t["target"])["k"] == "switch" else {}
+            some = edges.get("Some")
+            if some is None and "None" in edges and "otherwise" in edges:
+                some = edges["otherwise"]
+            if some is not None and body.edge_dominates((n.t["target"], some), cs.bb) and n.bb in body.reachable(cs.bb):
+                gate = (n, some)
+        if gate is None:
+            return None, "the call is on a loop that is not a `for` over an iterator"
+        n, some = gate
+        # every iteration reaches the call: from the Some edge the loop head is not reachable without passing the call
+        if n.bb in body.reachable(some, cut={cs.bb}):
+            return None, "an iteration can skip the call (continue / conditional)"
+        # the loop is left only when the iterator is exhausted
+        cyc = {x for x in range(body.n) if x in body.reachable_after(x) and cs.bb in body.reachable(x) and x in body.reachable(cs.bb)}
+        for x in cyc:
+            for s_ in body.succ(x):
+                if s_ in cyc or body.term(s_)["k"] == "unreachable":
+                    continue
+                if x == n.t["target"]:
+                    continue  # the None edge of this iterator
+                return None, "the loop can be left before the iterator is exhausted (break/return inside the loop)"
+        it = strip_sym(sy.operand(n.args[0]))
+        src = sym_through(it, *ITER_VIEWS)
+        return src, None
+    # closure given to for_each
+    par = getattr(fn, "parent", None)
+    if fn.dk == "Closure" and par is not None:
+        rets = [r for r in body.return_blocks() if r in body.reachable(0, cut={cs.bb})]
+        if rets:
+            return None, "the closure can return without making the call"
+        psy = Sym(par)
+        for c in par.body.calls():
+            if c.is_("Iterator::for_each") and not c.foreign():
+                a = [psy.operand(x) for x in c.args]
+                cl = strip_sym(a[1]) if len(a) > 1 else None
+                if cl and cl[0] == "agg" and cl[1] == "closure" and cl[5] == fn.path:
+                    if in_cycle(par.body, c.bb):
+                        return None, "for_each itself sits on a loop"
+                    return sym_through(a[0], *ITER_VIEWS), None
+        return None, "the enclosing closure is not the argument of Iterator::for_each"
+    return None, "the call is not inside a loop or a for_each closure"
